@@ -430,11 +430,14 @@ Error BaseBuilder::label_node_of(Out<LabelNode*> out, uint32_t label_id) {
 
   uint32_t index = label_id;
   if (ASMJIT_UNLIKELY(index >= _code->label_count())) {
-    return make_error(Error::kInvalidLabel);
+    return report_error(make_error(Error::kInvalidLabel));
   }
 
   if (index >= _label_nodes.size()) {
-    ASMJIT_PROPAGATE(_label_nodes.resize_grow(_builder_arena, index + 1));
+    Error err = _label_nodes.resize_grow(_builder_arena, index + 1);
+    if (ASMJIT_UNLIKELY(err != Error::kOk)) {
+      return report_error(err);
+    }
   }
 
   LabelNode* node = _label_nodes[index];
